@@ -469,3 +469,127 @@ Theorem C09_agrees_with_lookup_model_is_clone : forall t s, WF.WF t -> In s (pre
   node_is_clone (GlueLookup.to_search t) s = Ok (Lookup.lk_is_clone t (rid s)).
 Proof. exact GlueLookup.is_clone_agrees. Qed.
 Print Assumptions C09_agrees_with_lookup_model_is_clone.
+
+(* ======================================================================== *)
+(* "... whose name FULLY matches the pattern" (audit finding C09/1, high).
+   The theorems above hold for an arbitrary predicate of the name.  Here the
+   pattern is SYNTAX ([regex]: literals, `.`, sets / ranges / negated sets, \d,
+   concatenation, `|`, `*`, `+`, `?`; flag IGNORECASE on ASCII letters), its
+   meaning is the language [matches ic r] (an inductive relation that does not
+   mention the matcher), [fullmatchb] is the Brzozowski-derivative matcher the
+   case runner evaluates on the syntax trees the harness sends, and
+   [prefix_matchb] is re.match.  Other flags, anchors, counted repetition,
+   back-references, look-around and Unicode classes are outside the syntax and
+   stay on the truth-table path ([MRe], evaluated by the real `re`). *)
+From NT Require Import Regex RegexProofs.
+
+(* fullmatch decides: the WHOLE string is in the language of the pattern *)
+Theorem C09_fullmatch_is_whole_string_in_language : forall (ic : bool) (s : text) (r : regex),
+  fullmatchb ic r s = true <-> matches ic r s.
+Proof. exact fullmatch_iff. Qed.
+Print Assumptions C09_fullmatch_is_whole_string_in_language.
+
+(* re.match decides: SOME PREFIX of the string is in the language *)
+Theorem C09_match_is_some_prefix_in_language : forall (ic : bool) (s : text) (r : regex),
+  prefix_matchb ic r s = true <-> exists p q, s = p ++ q /\ matches ic r p.
+Proof. exact prefix_match_iff. Qed.
+Print Assumptions C09_match_is_some_prefix_in_language.
+
+(* the two are different predicates: pattern "a" on the name "ab" (and a full
+   match is always a prefix match) *)
+Theorem C09_fullmatch_is_not_match :
+  (forall ic r s, fullmatchb ic r s = true -> prefix_matchb ic r s = true) /\
+  prefix_matchb false (RChr 97) [97%Z; 98%Z] = true /\ fullmatchb false (RChr 97) [97%Z; 98%Z] = false /\
+  ~ matches false (RChr 97) [97%Z; 98%Z].
+Proof.
+  refine (conj fullmatch_prefix (conj eq_refl (conj eq_refl _))).
+  intros H. apply fullmatch_iff in H. discriminate H.
+Qed.
+Print Assumptions C09_fullmatch_is_not_match.
+
+(* the isinstance dispatch of Node._search over the forms of `match` *)
+Theorem C09_search_dispatch : forall (a : match_arg) (n : rt),
+  cb_match (search_dispatch a) n =
+    match a with
+    | MaStr r => fullmatchb false r (name_of n)        (* str: compiled without flags *)
+    | MaSeq r ic => fullmatchb ic r (name_of n)        (* (str, flags) / [str, flags] *)
+    | MaCall p => p n                                  (* callable *)
+    | MaObj o => Z.eqb (i_obj (rinfo n)) o             (* anything else: identity of the data object *)
+    end.
+Proof. exact dispatch_cases. Qed.
+Print Assumptions C09_search_dispatch.
+
+(* what the case runner evaluates for a pattern sent as syntax: the model's own
+   fullmatch on the node name; IGNORECASE only in the (str, flags) forms *)
+Theorem C09_case_regex_is_fullmatch : forall (seq ic : bool) (r : regex) (n : rt),
+  cb_match (spec_of (MRx seq ic r)) n = fullmatchb (seq && ic) r (name_of n).
+Proof. intros [|] ic r n; reflexivity. Qed.
+Print Assumptions C09_case_regex_is_fullmatch.
+
+(* a pattern search returns the first k (all for k = 0) nodes of the branch, in
+   pre-order, whose name is fully matched *)
+Theorem C09_find_all_pattern_is_fullmatch :
+  forall (f : forest) (s : start) (a : match_arg) (ic : bool) (r : regex) (add_self : bool) (k : nat),
+  pattern_of a = Some (ic, r) ->
+  node_find_all (iterator f s) None (Some (search_dispatch a)) None add_self k
+  = Ok (py_limit k (filter (fun n => fullmatchb ic r (name_of n)) (branch f s add_self))).
+Proof. exact node_find_all_pattern. Qed.
+Print Assumptions C09_find_all_pattern_is_fullmatch.
+
+(* the same without any matcher on the right-hand side: every returned node is a
+   node of the branch whose WHOLE name is in the language of the pattern; without
+   a limit every such node is returned; pre-order; at most k, a prefix of the matches *)
+Theorem C09_find_all_pattern_language :
+  forall (f : forest) (s : start) (a : match_arg) (ic : bool) (r : regex) (add_self : bool) (k : nat) (res : list rt),
+  pattern_of a = Some (ic, r) ->
+  node_find_all (iterator f s) None (Some (search_dispatch a)) None add_self k = Ok res ->
+  (forall x, In x res -> In x (branch f s add_self) /\ matches ic r (name_of x)) /\
+  (k = 0 -> forall x, In x (branch f s add_self) -> matches ic r (name_of x) -> In x res) /\
+  subseq res (branch f s add_self) /\
+  (1 <= k -> length res <= k /\
+             exists rest, filter (fun n => fullmatchb ic r (name_of n)) (branch f s add_self) = res ++ rest).
+Proof. exact node_find_all_pattern_language. Qed.
+Print Assumptions C09_find_all_pattern_language.
+
+Theorem C09_find_first_pattern_is_fullmatch :
+  forall (f : forest) (s : start) (a : match_arg) (ic : bool) (r : regex),
+  pattern_of a = Some (ic, r) ->
+  node_find_first (iterator f s) None (Some (search_dispatch a)) None
+  = Ok (hd_error (filter (fun n => fullmatchb ic r (name_of n)) (branch f s false))).
+Proof. exact node_find_first_pattern. Qed.
+Print Assumptions C09_find_first_pattern_is_fullmatch.
+
+Theorem C09_tree_find_all_pattern_is_fullmatch :
+  forall (st : tstate) (a : match_arg) (ic : bool) (r : regex) (k : nat),
+  pattern_of a = Some (ic, r) ->
+  tree_find_all st None (Some (search_dispatch a)) None k
+  = Ok (map rid (py_limit k (filter (fun n => fullmatchb ic r (name_of n)) (pre_f (t_forest st))))).
+Proof. exact tree_find_all_pattern. Qed.
+Print Assumptions C09_tree_find_all_pattern_is_fullmatch.
+
+(* errors of `key in tree` (only in SearchProofs so far) *)
+Theorem C09_contains_errors : forall st : tstate,
+  contains st (KNode None) = Err EType /\ contains st KNone = Err ENotImpl.
+Proof. exact contains_errors. Qed.
+Print Assumptions C09_contains_errors.
+
+(* non-vacuity and the excluded counter-model: nodes named "a", "ab", "A", "b";
+   the pattern "a" finds only "a" (a prefix matcher would also find "ab"),
+   ("a", IGNORECASE) finds "a" and "A", "a.*" finds "a" and "ab", "[ab]+" all but
+   "A", "b|ab?" ...; and the language relation is inhabited *)
+Example C09_regex_nonvacuous :
+  let i (o : Z) (nm : text) := I o o o true nm (DInt o) None [] in
+  let f := [T 1 (i 1%Z [97%Z]) [T 2 (i 2%Z [97%Z; 98%Z]) []; T 3 (i 3%Z [65%Z]) []]; T 4 (i 4%Z [98%Z]) []] in
+  let find a := res_map (map rid) (node_find_all (iterator f SRoot) None (Some (search_dispatch a)) None false 0) in
+  find (MaStr (RChr 97)) = Ok [1] /\
+  map rid (filter (fun n => prefix_matchb false (RChr 97) (name_of n)) (pre_f f)) = [1; 2] /\
+  find (MaSeq (RChr 97) true) = Ok [1; 3] /\
+  find (MaStr (RCat (RChr 97) (RStar RAny))) = Ok [1; 2] /\
+  find (MaStr (RPlus (RCls false [(97, 97); (98, 98)]%Z))) = Ok [1; 2; 4] /\
+  find (MaStr (RAlt (RChr 98) (RCat (RChr 97) (ROpt (RChr 98))))) = Ok [1; 2; 4] /\
+  find (MaStr REps) = Ok [] /\
+  matches false (RCat (RChr 97) (RStar RAny)) [97%Z; 98%Z].
+Proof.
+  cbv zeta. repeat (split; [vm_compute; reflexivity|]).
+  apply fullmatch_iff. vm_compute. reflexivity.
+Qed.
